@@ -5,12 +5,14 @@ model mode   : `init <x86|x64|a64> <base hex | ->` starts a program; every op li
                `<Err> <size of current section> <unresolved count>` (+ ` <reduction>` for relocate);
                `dump` prints layout, bytes and label table;
                `jitadd <rx hex>` = JitRuntime::add with the span at rx: `<Err> <size> <count> <rx> <code size> <image hex>`,
-               `jitrelease` -> `<Err> <size> <count> live=0`.
+               `jitrelease` -> `<Err> <size> <count> live=0`;
+               `newnamed <name>` / `byname <name>` (named labels; `-` = empty name, `@n` = n letters) -> `<Err> <size> <count>` / `id=<n>|invalid`.
 monitor mode : `moninit <arch> <base|->`, `mon <Err> <size> <count> | <op words>` (implementation's answer + op; no output),
                `mondump <dump line of the implementation>` -> `good` / `BAD <why>` (Spec/RefSemantics.judge).
 -/
 import AsmjitVerif.Model.Prog
 import AsmjitVerif.Model.JitAdd
+import AsmjitVerif.Model.Named
 import AsmjitVerif.Spec.RefSemantics
 import Driver.Common
 open AsmjitVerif.Offset
@@ -95,7 +97,11 @@ structure DS where
   model : State
   ghost : Ghost
   added : Bool := false     -- a successful `jitadd` not yet released
+  names : List (String × Nat) := []   -- named labels (Model/Named.lean)
   deriving Inhabited
+
+def decodeName (w : String) : String :=
+  if w == "-" then "" else if w.startsWith "@" then String.mk (List.replicate ((w.drop 1).toString.toNat?.getD 0) 'a') else w
 
 def answer (s : State) (e : Err) : String := s!"{e.name} {s.curOff} {s.count}"
 
@@ -106,7 +112,7 @@ def stepLine (st : DS) (line : String) : DS × String :=
     match parseArch a with
     | some arch =>
       let base := if b == "-" then noBase else (bv64? b).getD noBase
-      ({ st with model := State.init arch base }, "Ok 0 0")
+      ({ st with model := State.init arch base, names := [], added := false }, "Ok 0 0")
     | none => (st, "bad-op")
   | ["dump"] => (st, dumpLine st.model)
   | ["moninit", a, b] =>
@@ -144,6 +150,14 @@ def stepLine (st : DS) (line : String) : DS × String :=
       | some v => if a + decode32 k.kind.fmt (BitVec.ofNat 32 v) == t then (st, "good") else (st, "BAD direct-branch-wrong-target")
       | none => (st, "BAD branch-out-of-buffer")
     | _, _, _, _ => (st, "bad-op")
+  | ["newnamed", nm] =>
+    -- `new_named_label_id(name, kGlobal)`; `-` = the empty name, `@n` = a name of n letters
+    let (n', e) := newNamed { st := st.model, names := st.names } (decodeName nm)
+    ({ st with model := n'.st, names := n'.names }, s!"{e.name} {n'.st.curOff} {n'.st.count}")
+  | ["byname", nm] =>
+    match labelByName st.names (decodeName nm) with
+    | some id => (st, s!"id={id}")
+    | none => (st, "id=invalid")
   | ["jitadd", b] =>
     -- `JitRuntime::add`; the span address is the one the real allocator returned (given by the check script)
     match bv64? b with
